@@ -22,7 +22,7 @@ from warnings import warn
 from .collections import PVLObject, PVLGroup, Quantity
 from .grammar import PVLGrammar, ODLGrammar, PDSGrammar, ISISGrammar
 from .token import Token
-from .decoder import PVLDecoder, ODLDecoder, PDSLabelDecoder
+from .decoder import PVLDecoder, ODLDecoder, PDSLabelDecoder, OmniDecoder
 
 
 class QuantTup(namedtuple("QuantTup", ["cls", "value_prop", "units_prop"])):
@@ -1289,3 +1289,18 @@ class ISISEncoder(PVLEncoder):
             group_class=group_class,
             object_class=object_class
         )
+
+    def needs_quotes(self, s: str) -> bool:
+        """Extends the parent function, because ISIS-flavored text
+        is read back with the permissive decoder, which recognizes
+        more forms (e.g. times with a zone offset, ``12:00+01``) than
+        this encoder's own decoder does."""
+        if super().needs_quotes(s):
+            return True
+
+        try:
+            decoded = OmniDecoder(grammar=self.grammar).decode_simple_value(s)
+        except ValueError:
+            return True
+
+        return not (isinstance(decoded, str) and decoded == s)
